@@ -208,7 +208,7 @@ def run(tier):
     res.assumptions = ["enum values are only identifiable by identity in the JSON: enum domains are compared by size, inclusion structure and equality pattern",
                        "single-valued enums and object fields whose type has no instance yet are not generated (core::new_enum / new_existential assert on them)"]
     exes = {v: build.driver(v, "probe", libs=("solver", "core", "riddle", "smt", "json")) for v in ("dbg", "rel")}
-    total = 3600 if tier == "quick" else 16000
+    total = 3600 if tier == "quick" else 100000
     per = 20 if tier == "quick" else 50
     common.pmap(work, [(exes, s, per, PID) for s in range(0, total, per)], res)
     res.gate("variable domains compared", res.counters.get("variable domains compared", 0) > 200)
